@@ -35,6 +35,10 @@ inline auto access(const void * obj, bool write, const char * what, int)
 	-> decltype(Threading::verifAccess(obj, write, what), void()) { Threading::verifAccess(obj, write, what); }
 template <typename Threading>
 inline void access(const void *, bool, const char *, long) {}
+template <typename Threading>
+inline auto forget(const void * obj, int) -> decltype(Threading::verifForget(obj), void()) { Threading::verifForget(obj); }
+template <typename Threading>
+inline void forget(const void *, long) {}
 typedef void (*SpinHook)(const void *, int);
 inline SpinHook & spinHook() { static SpinHook hook = nullptr; return hook; }
 inline void spin(const void * lock, int phase) { if(spinHook() != nullptr) spinHook()(lock, phase); }
@@ -42,10 +46,12 @@ inline void spin(const void * lock, int phase) { if(spinHook() != nullptr) spinH
 #define EVENTPP_VERIF_POINT(tag) ::eventpp::verif_::point<Threading>(tag, 0)
 #define EVENTPP_VERIF_ACCESS(obj, write, what) ::eventpp::verif_::access<Threading>(obj, write, what, 0)
 #define EVENTPP_VERIF_SPIN(lock, phase) ::eventpp::verif_::spin(lock, phase)
+#define EVENTPP_VERIF_FORGET(obj) ::eventpp::verif_::forget<Threading>(obj, 0)
 #else
 #define EVENTPP_VERIF_POINT(tag)
 #define EVENTPP_VERIF_ACCESS(obj, write, what)
 #define EVENTPP_VERIF_SPIN(lock, phase)
+#define EVENTPP_VERIF_FORGET(obj)
 #endif
 
 namespace eventpp {
